@@ -38,7 +38,7 @@ pub struct Judged {
 
 pub fn judge(w: &World) -> Judged {
     let text = w.text();
-    let (verdict, _) = front::check_texts(&[&text]);
+    let (verdict, diags) = front::check_texts(&[&text]);
     let codes = verdict.codes();
     let vio: BTreeSet<String> = w.violated.iter().map(|s| s.to_string()).collect();
     let mk = |class: &'static str, sig: Option<String>, detail: String| Judged { class, sig, codes: codes.clone(), detail };
@@ -49,10 +49,19 @@ pub fn judge(w: &World) -> Judged {
         return mk("world-does-not-parse", Some(format!("world-does-not-parse:{}", verdict.short())), "the generated world is rejected by the parser".into());
     }
     let only_9999 = !codes.is_empty() && codes.iter().all(|c| c == "P9999");
-    if only_9999 {
+    // "not implemented" said by a transform stops the analysis (nothing after it is judged); said by a rule it stops
+    // that rule only — the other rules have run, and a planted fault they are about must still be reported
+    let every_9999_from_a_rule = diags.iter().filter(|d| d.code == "P9999").all(|d| {
+        let m = format!("{} {}", d.primary.message, d.described.join(" "));
+        m.contains("/rule_") && !m.contains("/xform_")
+    });
+    if only_9999 && (vio.is_empty() || !every_9999_from_a_rule) {
         return mk("unsupported(P9999)", None, String::new());
     }
     let rule_codes: BTreeSet<String> = codes.iter().filter(|c| *c != "P9999").cloned().collect();
+    let codes_seen = codes.clone();
+    let codes: BTreeSet<String> = if only_9999 { BTreeSet::new() } else { codes };
+    let mk = |class: &'static str, sig: Option<String>, detail: String| Judged { class, sig, codes: codes_seen.clone(), detail };
     if vio.is_empty() {
         if codes.is_empty() {
             mk("agree-ok", None, String::new())
